@@ -181,3 +181,86 @@ func c05SignalSequences(c *Ctx) {
 		}
 	}
 }
+
+// c05MrjobSignalWhileRecording: the real job monitor (mrjob, built from the tree) receives a handled
+// signal at the instant it is recording the job's completion — made deterministic by turning the
+// journal entry for _complete into a FIFO, in which mrjob blocks right after it wrote _complete.
+// Oracle: a job whose completion is recorded is not marked failed afterwards (a job directory with
+// both _complete and _errors is `failed`: the restarted mrp resets it and runs the job again).
+func c05MrjobSignalWhileRecording(c *Ctx, env *TBEnv) {
+	r := c.Res
+	mrjob := filepath.Join(filepath.Dir(env.Mrp), "mrjob")
+	if _, err := os.Stat(mrjob); err != nil {
+		r.note("mrjob signal runs skipped: %v", err)
+		return
+	}
+	for i, sig := range []string{"TERM", "INT", "HUP"} {
+		dir := filepath.Join(c.Scratch, fmt.Sprintf("mrjobsig%d", i))
+		md := filepath.Join(dir, "chnk0-u0123456789")
+		files := filepath.Join(md, "files")
+		journal := filepath.Join(dir, "journal")
+		for _, d := range []string{md, files, journal} {
+			os.MkdirAll(d, 0o777)
+		}
+		runFile := filepath.Join(journal, "PIPE.STAGE.fork0.chnk0.u0123456789")
+		os.WriteFile(filepath.Join(md, "_jobinfo"), []byte(`{"name": "ID.v.PIPE.STAGE.fork0.chnk0", "type": "local", "threads": 1, "memGB": 1}`), 0o644)
+		os.WriteFile(filepath.Join(md, "_outs"), []byte(`{"result": null}`), 0o644)
+		stage := filepath.Join(dir, "stage.sh")
+		os.WriteFile(stage, []byte("#!/bin/sh\necho '{\"result\": 1}' > \"$2/_outs\"\nexit 0\n"), 0o755)
+		fifo := runFile + ".complete"
+		if err := syscall.Mkfifo(fifo, 0o644); err != nil {
+			r.note("mkfifo: %v", err)
+			return
+		}
+		cmd := exec.Command(mrjob, stage, "main", md, files, runFile)
+		cmd.SysProcAttr = &syscall.SysProcAttr{Setpgid: true}
+		if err := cmd.Start(); err != nil {
+			r.note("mrjob does not start: %v", err)
+			return
+		}
+		exited := make(chan error, 1)
+		go func() { exited <- cmd.Wait() }()
+		exists := func(n string) bool { _, err := os.Stat(filepath.Join(md, n)); return err == nil }
+		ok := false
+		for t0 := time.Now(); time.Since(t0) < 20*time.Second; time.Sleep(5 * time.Millisecond) {
+			if exists("_complete") {
+				ok = true
+				break
+			}
+		}
+		r.hist("mrjob_signal_while_recording_runs")
+		if !ok {
+			cmd.Process.Kill()
+			<-exited
+			r.note("mrjob never wrote _complete (signal %s run)", sig)
+			continue
+		}
+		time.Sleep(50 * time.Millisecond)
+		cmd.Process.Signal(c05SigNames[sig])
+		time.Sleep(300 * time.Millisecond)
+		go func() {
+			if f, err := os.OpenFile(fifo, os.O_RDONLY|syscall.O_NONBLOCK, 0); err == nil {
+				defer f.Close()
+				buf := make([]byte, 256)
+				for end := time.Now().Add(5 * time.Second); time.Now().Before(end); time.Sleep(10 * time.Millisecond) {
+					f.Read(buf)
+				}
+			}
+		}()
+		select {
+		case <-exited:
+		case <-time.After(20 * time.Second):
+			cmd.Process.Kill()
+			<-exited
+			r.note("mrjob did not exit (signal %s run)", sig)
+			continue
+		}
+		r.count("mrjob-signal-while-recording:"+sig, true)
+		if exists("_complete") && exists("_errors") {
+			b, _ := os.ReadFile(filepath.Join(md, "_errors"))
+			r.violate(Violation{Kind: "property", Key: "C05:completed-job-marked-failed-by-signal:" + sig,
+				What:  "the job monitor had recorded the job's completion (_complete) when SIG" + sig + " arrived, and marked the job failed afterwards (_errors: " + firstLine(string(b)) + "): the restarted mrp resets the job and executes it again",
+				Input: map[string]interface{}{"signal": sig, "scenario": "real mrjob, journal entry of _complete is a FIFO so that the signal arrives inside runner.Complete()"}})
+		}
+	}
+}
